@@ -148,24 +148,45 @@ impl<T: Types> RaftLogState<T> {
         Ok(())
     }
 
+    /// Check whether `rec` would be accepted by [`Self::apply`], without
+    /// changing the state.
+    ///
+    /// A record must be validated before it is written to the WAL, otherwise
+    /// a rejected record would still be persisted and replayed.
+    pub(crate) fn validate(
+        &self,
+        rec: &WALRecord<T>,
+    ) -> Result<(), RaftLogStateError<T>> {
+        match rec {
+            WALRecord::SaveVote(vote) => self.check_vote(vote),
+            WALRecord::Append(log_id, _payload) => self.check_append(log_id),
+            WALRecord::Commit(log_id) => self.check_commit(log_id),
+            WALRecord::TruncateAfter(_)
+            | WALRecord::PurgeUpto(_)
+            | WALRecord::State(_) => Ok(()),
+        }
+    }
+
+    fn check_vote(&self, vote: &T::Vote) -> Result<(), RaftLogStateError<T>> {
+        if Some(vote) >= self.vote.as_ref() {
+            Ok(())
+        } else {
+            Err(VoteReversal::new(self.vote.clone().unwrap(), vote.clone())
+                .into())
+        }
+    }
+
     pub(crate) fn update_vote(
         &mut self,
         vote: &T::Vote,
     ) -> Result<(), RaftLogStateError<T>> {
-        if Some(vote) >= self.vote.as_ref() {
-            self.vote = Some(vote.clone());
-        } else {
-            return Err(VoteReversal::new(
-                self.vote.clone().unwrap(),
-                vote.clone(),
-            )
-            .into());
-        }
+        self.check_vote(vote)?;
+        self.vote = Some(vote.clone());
         Ok(())
     }
 
-    pub(crate) fn append(
-        &mut self,
+    fn check_append(
+        &self,
         log_id: &T::LogId,
     ) -> Result<(), RaftLogStateError<T>> {
         if Some(log_id) <= self.last.as_ref() {
@@ -193,12 +214,20 @@ impl<T: Types> RaftLogState<T> {
             }
         }
 
+        Ok(())
+    }
+
+    pub(crate) fn append(
+        &mut self,
+        log_id: &T::LogId,
+    ) -> Result<(), RaftLogStateError<T>> {
+        self.check_append(log_id)?;
         self.last = Some(log_id.clone());
         Ok(())
     }
 
-    pub(crate) fn commit(
-        &mut self,
+    fn check_commit(
+        &self,
         log_id: &T::LogId,
     ) -> Result<(), RaftLogStateError<T>> {
         if Some(log_id) < self.committed.as_ref() {
@@ -210,6 +239,14 @@ impl<T: Types> RaftLogState<T> {
             .into());
         }
 
+        Ok(())
+    }
+
+    pub(crate) fn commit(
+        &mut self,
+        log_id: &T::LogId,
+    ) -> Result<(), RaftLogStateError<T>> {
+        self.check_commit(log_id)?;
         self.committed = Some(log_id.clone());
         Ok(())
     }
